@@ -4,6 +4,8 @@ from __future__ import annotations
 
 import os
 import random
+import math
+import struct
 import sys
 
 sys.path.insert(0, os.path.dirname(os.path.abspath(__file__)))
@@ -91,6 +93,14 @@ class C02(Property):
                 d["pattern"] = rng.choice(["alpha-steps", "runs"])
                 d["mode"] = "RGBA"
                 d["alpha"] = rng.choice([0.4, 0.5, 0.004, 0.999])
+            if rng.random() < 0.15:
+                # threshold arithmetic alone: alpha at k/255, k/255 ± ulp, (k+.5)/255 (ties), random
+                k = rng.randrange(0, 256)
+                a = rng.choice([k / 255, (k + 0.5) / 255, rng.random(), k / 256, (2 * k + 1) / 510])
+                a = rng.choice([a, math.nextafter(a, 0.0), math.nextafter(a, 1.0)])
+                a = min(max(a, 0.0), math.nextafter(1.0, 0.0))
+                yield Case(f"thr {int.from_bytes(struct.pack('>d', a), 'big')}", {"thr_alpha": a}, "thr", True)
+                continue
             op = rng.choice(["want", "want", "block", "rounda"])
             yield Case(op, d, f"{op}-{shape}-{'a' if isinstance(d['alpha'], float) else 's' if d['alpha'] else 'n'}", True)
 
@@ -110,6 +120,9 @@ class C02(Property):
     def impl(self, case: Case) -> str:
         d = case.data
         op = case.line.split(" ")[0]
+        if op == "thr":
+            # what the library computes: `alpha = round(alpha * 255)` (common.py, _get_render_data)
+            return f"ok {round(d['thr_alpha'] * 255)}"
         img, im = self._image(d)
         cap = {}
         orig = im._get_render_data
@@ -146,14 +159,19 @@ class C02(Property):
             return "ok -"
         del im._get_render_data
         raw = im._renderer(lambda img_, alpha: im._get_render_data(img_, alpha, round_alpha=False)[2], d["alpha"])
-        thr = round(d["alpha"] * 255)
-        case.line = f"rounda {thr} {hx(bytes(raw))}"
+        # the model computes the threshold itself from the float's binary64 image (op `thr`);
+        # `rounda` gets that model threshold, so the whole `round(alpha * 255)` + comparison chain is tied
+        bits = int.from_bytes(struct.pack(">d", d["alpha"]), "big")
+        mthr = fw.run_driver(self.driver, [f"thr {bits}"])[0]
+        if not mthr.startswith("ok "):
+            return "err threshold " + mthr
+        case.line = f"rounda {mthr[3:]} {hx(bytes(raw))}"
         return "ok " + hx(a)
 
     # -- oracle: independent expectation from Pillow ----------------------------------------
     def oracle(self, case: Case, impl_result: str):
         d = case.data
-        out = d.get("_out")
+        out = d.get("_out") if isinstance(d, dict) else None
         if out is None:
             return None
         w, h = d["_size"]
